@@ -135,8 +135,10 @@ P.manifest = {
             "(C05_brandes_hop_count, C05_model_hop_count; via loop invariant of the stage, exactness of the path "
             "enumeration, Brandes' dependency recurrence and its uniqueness). Also for all graphs: endpoints never count, "
             "pairs without a path contribute nothing, <=2 nodes => all 0, one entry per node, the four get_scale cases, "
-            "rayon path = serial path, fuel never exhausted. WEIGHTED MODE: 'model = definition' is NOT proved for all "
-            "graphs; it is validated per generated graph inside Coq in exact rationals (observation 52, n<=8).",
+            "rayon path = serial path, fuel never exhausted. WEIGHTED MODE: proved for all graphs and every heap tie choice: the "
+            "stage finalises the true shortest distances (C05_stage_dijkstra_distances_partial); 'model = definition' is "
+            "NOT proved for weighted graphs, it is validated per generated graph inside Coq in exact rationals "
+            "(observation 52, n<=8).",
     "note": "Hypothesis of the hop-count theorem: the adjacency read (successors_vec) lists each neighbour once per row and "
             "all indexes are in range - checked per case (observation 53, sound by C05_rows_check_sound; adj_ok is also "
             "checked by the model itself). The definition is evaluated on that adjacency; that it represents the stored "
